@@ -11,7 +11,7 @@ import ast
 import struct
 
 from ..model import AnalysisError, src, callee_name, dotted, walk_local, calls_in, FUNC
-from ..flow import atoms_at, split_conj
+from ..flow import path_conditions,  atoms_at, split_conj
 from ..callgraph import CallGraph
 from .. import effects
 from ..common import is_awaited, in_loop, ancestors, resolve_single_assign
@@ -265,6 +265,40 @@ def _ordering(ctx, repo, m):
     futs = [n.targets[0].id for n in walk_local(rc.node) if isinstance(n, ast.Assign) and isinstance(n.value, ast.Call) and (dotted(n.value.func) or "").endswith("Future") and isinstance(n.targets[0], ast.Name)]
     aw = [n for n in walk_local(rc.node) if isinstance(n, ast.Await) and isinstance(n.value, ast.Name) and n.value.id in futs]
     ctx.ob("C13-R4", rc.fq, "the dispatcher awaits the result future it hands to the command coroutine", bool(aw), node=rc.node, construct="dispatcher awaits the result")
+    # every command is evaluated on the interpreter's loop, in arrival order: the command coroutine is created only by the
+    # dispatcher and handed, unconditionally, to <interpreter loop>.call_soon_threadsafe / run_coroutine_threadsafe; it is never awaited on the io loop
+    srvname = "execute_server_command"
+    loopp = rc.params()[0] if rc.params() else None
+    creators = [(f, c) for f in repo.all_funcs() for c in calls_in(f.node) if callee_name(c) == srvname and f.module.name == IPC]
+    ctx.floor("C13-R4", "creation sites of the command coroutine", len(creators), 1)
+    for f, c in creators:
+        ctx.ob("C13-R4", f.fq, "the command coroutine is created only by the dispatcher", f is rc, node=c, construct=f"{srvname} called outside the dispatcher",
+               msg=f"{f.fq} runs a server command itself: it is evaluated on the caller's thread/loop, concurrently with whatever the interpreter is doing, and out of arrival order")
+        if f is not rc:
+            continue
+        par = getattr(c, "_parent", None)
+        cov = par.targets[0].id if isinstance(par, ast.Assign) and isinstance(par.targets[0], ast.Name) else None
+        ctx.ob("C13-R4", rc.fq, "the command coroutine is bound to a local and not awaited where it is created", cov is not None and not isinstance(par, ast.Await), node=c, construct="command coroutine not awaited in place",
+               msg="the dispatcher awaits the command coroutine on the io loop instead of scheduling it on the interpreter's loop")
+        if cov is None:
+            continue
+        uses = [n for n in walk_local(rc.node) if isinstance(n, ast.Name) and n.id == cov and isinstance(n.ctx, ast.Load)]
+        hand = []
+        for u in uses:
+            up = getattr(u, "_parent", None)
+            okk = isinstance(up, ast.Call) and isinstance(up.func, ast.Attribute) and (
+                (up.func.attr == "call_soon_threadsafe" and dotted(up.func.value) == loopp and len(up.args) == 2 and up.args[1] is u and (dotted(up.args[0]) or "").endswith("create_task")) or
+                (up.func.attr == "run_coroutine_threadsafe" and len(up.args) == 2 and up.args[0] is u and dotted(up.args[1]) == loopp))
+            if okk:
+                hand.append(up)
+            else:
+                ctx.ob("C13-R4", rc.fq, "the command coroutine is only handed to the interpreter's loop", False, node=u, construct=f"command coroutine used outside the hand-over ({type(up).__name__})",
+                       msg=f"the command coroutine is {'awaited on the io loop' if isinstance(up, ast.Await) else 'used'} at line {u.lineno}: some commands are evaluated while the interpreter is in the middle of another one (they see its local frames) and overtake commands queued earlier")
+        ctx.ob("C13-R4", rc.fq, "exactly one hand-over of the command coroutine to the interpreter's loop", len(hand) == 1, node=c, construct="one hand-over to the interpreter loop")
+        for h in hand:
+            conds = [(t, pl) for t, pl in path_conditions(h, rc.node) if not isinstance(getattr(t, "_parent", None), ast.Assert)]
+            ctx.ob("C13-R4", rc.fq, "the hand-over is unconditional (every command kind takes the same route)", not conds, node=h, construct="hand-over unconditional",
+                   msg=f"only commands with `{src(conds[0][0]) if conds else ''}` = {conds[0][1] if conds else ''} go through the interpreter's loop")
 
 
 def _handles(ctx, repo, m):
@@ -307,6 +341,10 @@ MUTATION_SCOPE = ['sys_fn_ipc:encode_message',
                   'types:KGUndefined.__reduce__']
 
 SEEDS = [
+    Seed("dict-get-bypasses-interpreter-loop", "fault", IPC, "    klongloop.call_soon_threadsafe(asyncio.create_task, coroutine)\n",
+         "    if isinstance(command, KGRemoteDictGetCall):\n        await coroutine\n    else:\n        klongloop.call_soon_threadsafe(asyncio.create_task, coroutine)\n", rule="C13-R4"),
+    Seed("command-task-on-io-loop", "fault", IPC, "    klongloop.call_soon_threadsafe(asyncio.create_task, coroutine)\n", "    asyncio.create_task(coroutine)\n", rule="C13-R4"),
+    Seed("refactor-run-coroutine-threadsafe", "refactor", IPC, "    klongloop.call_soon_threadsafe(asyncio.create_task, coroutine)\n", "    asyncio.run_coroutine_threadsafe(coroutine, klongloop)\n"),
     Seed("little-endian-length", "fault", IPC, "    length_bytes = struct.pack(\"!I\", len(data))", "    length_bytes = struct.pack(\"<I\", len(data))", rule="C13-R1"),
     Seed("short-read", "fault", IPC, "    raw_msglen = await reader.readexactly(4)", "    raw_msglen = await reader.read(4)", rule="C13-R1"),
     Seed("length-width", "fault", IPC, "    length_bytes = struct.pack(\"!I\", len(data))", "    length_bytes = struct.pack(\"!Q\", len(data))", rule="C13-R1",
